@@ -25,7 +25,7 @@ ASSUMPTIONS = [
     "(read-only, then unmapped, then the registers in ascending order, undecodable before out-of-range); the statement fixes the address per class, not the precedence",
 ]
 TRUSTED = ["correspondence harness harness/h_regtable.c + tools/lib/vf.py"]
-DESIGN_REF = "DESIGN.md section 8, C02"
+DESIGN_REF = "DESIGN.md section 0.2 (as built) and section 8, C02"
 TECHNIQUE = "Lean 4 proofs over the register-table model (block write all-or-nothing, effect on exactly n atoms, failure address, bounds of the overlay) + exhaustive (address, length) windows in the differential correspondence"
 LEVEL_TEXT = ("Machine-checked proof over the Lean model of register_block_write: it succeeds exactly when every touched area is writable, every addressed word is mapped and every "
               "overlapped register still decodes and satisfies its constraint with the new words overlaid (block_write_success_iff), the failure classes are tried in that order "
